@@ -6,6 +6,7 @@ require (
 	github.com/anishathalye/porcupine v1.3.0
 	github.com/openebs/jiva v0.0.0
 	github.com/openebs/sparse-tools v1.1.0
+	github.com/sirupsen/logrus v1.7.0
 )
 
 require (
@@ -29,7 +30,6 @@ require (
 	github.com/prometheus/procfs v0.0.8 // indirect
 	github.com/rancher/go-rancher v0.1.1-0.20190307222549-9756097e5e4c // indirect
 	github.com/satori/go.uuid v1.2.0 // indirect
-	github.com/sirupsen/logrus v1.7.0 // indirect
 	go.uber.org/atomic v1.6.0 // indirect
 	go.uber.org/multierr v1.5.0 // indirect
 	go.uber.org/zap v1.14.1 // indirect
